@@ -4,7 +4,7 @@ from .common import declare
 
 RULES = ['SINGLE-CONSUMER', 'SERIAL-DRAIN', 'FIFO-END', 'SWAP-ATOMIC', 'ATOMIC-RMW', 'AWAITABLE-SHARE', 'EMIT-SIG', 'BOUND-PLUMB', 'NOTIFY-ON-FREE', 'ARM-CANCEL',
          'APPEND-THEN-TEST', 'ARM-ON-FIRST', 'AWAITABLE-RESULT', 'PROPAGATE', 'EAGER-UPDATE']
-FLOORS = {'SINGLE-CONSUMER': 6, 'SERIAL-DRAIN': 6, 'FIFO-END': 10, 'SWAP-ATOMIC': 6, 'ATOMIC-RMW': 1, 'AWAITABLE-SHARE': 2,
+FLOORS = {'SINGLE-CONSUMER': 4, 'SERIAL-DRAIN': 6, 'FIFO-END': 10, 'SWAP-ATOMIC': 6, 'ATOMIC-RMW': 1, 'AWAITABLE-SHARE': 1,
           'EMIT-SIG': 30}
 
 META = {
